@@ -104,6 +104,14 @@ CLAIMED = {
          "tuple variations with 1..300 explicit points, name, kern) are implementation round-trip sweeps on generated contents (testing). "
          "Known finding F7 (empty cmap 12/13).",
          "Rocq proof of hmtx/loca codec round trips + byte-exact correspondence + generated-content round-trip sweeps"),
+ "C03": ("Theorems over the Gallina transcription of the TTX text layer: escape / escapeattr followed by a specification-level XML "
+         "un-escaper return every string of legal XML characters (attribute values up to exactly the TAB/LF->space normalisation the property "
+         "allows), by induction over the string; hexStr/deHexStr round-trip every byte string. The transcriptions AND the specification-level "
+         "un-escaper are tied by correspondence to xmlWriter and to expat. Per-table toXML/fromXML is covered on the implementation: corpus fonts "
+         "covering every table tag and generated fonts (instruction streams with every PUSH boundary value, glyph names colliding as file names, "
+         "COLRv1) dumped with every option set into mixed-case paths and re-imported — all option sets give the same table bytes, generation 1 "
+         "and 2 are byte and text fixed points, generation 0 and 1 agree through HarfBuzz (testing). Known finding F11 (pre-1970 timestamps).",
+         "Rocq proof of escaping round trips + correspondence to xmlWriter/expat + TTX generation/option sweeps"),
 }
 
 def main():
